@@ -57,7 +57,7 @@ class C13:
     rule = ("a class forest of 2-5 classes (decorated roots, decorated and UNDECORATED subclasses, 1-4 constructor fields with inherited "
             "fields first, in 30 % of the classes also 1-2 attributes that are NOT constructor parameters - dataclass fields with "
             "init=False - declared between them), 4-8 objects of mixed classes whose fields hold 0/1/2, None or other objects; 1-2 top-level predicate-form "
-            "terms T(From(d), ...) over MIXED-TYPE domains with 0-2 positional arguments after the domain and any subset of the other "
+            "terms T(From(d), ...) over MIXED-TYPE domains (in an eighth of the cases ONE From object is the source of every term, of whatever type; some domains are a single value, of the type or not) with 0-2 positional arguments after the domain and any subset of the other "
             "fields by keyword; values are constants (falsy ones included), variables / attributes of variables declared earlier, or "
             "nested terms (depth <= 3); optional further ==/!= condition; in a fifth of the cases the instance registry is cleared before "
             "the query is built; each case is built in predicate form (caching off and on, evaluated twice) and in the explicit form "
@@ -116,6 +116,12 @@ class C13:
             d = rng.sample(range(nobj), rng.randint(1, min(6, nobj)))
             if want is not None and want not in d and rng.random() < 0.85:
                 d.insert(rng.randrange(len(d) + 1), want)
+            single = False
+            if shared_d is not None:
+                d = list(shared_d)               # ONE From object is the source of every term of the case
+            elif rng.random() < 0.08:
+                # the domain is a single VALUE (let(T, value) / T(From(value))), of the type or not
+                d, single = [want if want is not None and rng.random() < 0.6 else rng.randrange(nobj)], True
             inst = [i_ for i_ in d if is_sub(classes, heap[i_]['cls'], T)]
             target = want if (want in inst and rng.random() < 0.8) else (rng.choice(inst) if inst else None)
             n = sig_len(classes, T)
@@ -138,8 +144,9 @@ class C13:
                 r = rng.random()
                 return ['const', {'o': rng.randrange(nobj)} if r < 0.3 else None if r < 0.4 else rng.randint(0, 2)]
             args = [['pos', gen_val(f)] for f in range(npos)] + [['kw', f, gen_val(f)] for f in rest]
-            return dict(x=x, T=T, d=d, args=args)
-        for _ in range(rng.choice([1, 1, 2, 2])):
+            return dict(x=x, T=T, d=d, args=args, **({'single': True} if single else {}))
+        shared_d = rng.sample(range(nobj), rng.randint(2, min(6, nobj))) if rng.random() < 0.12 else None
+        for _ in range(rng.choice([1, 1, 2, 2]) if shared_d is None else 2):
             tops.append(gen_term(0))
         extra = []
         if rng.random() < 0.3:
@@ -152,7 +159,9 @@ class C13:
         rng.shuffle(sel)
         case = dict(classes=classes, heap=heap, terms=tops, extra=extra, sel=sel,
                     quant_form=rng.choice(['entity', 'set_of']), clear_registry=rng.random() < 0.2)
-        if rng.random() < 0.25:
+        if shared_d is not None:
+            case['shared_from'] = True
+        elif rng.random() < 0.25:
             # the supplied domains are list OBJECTS that an earlier query was built over (and possibly evaluated) while they held other
             # members; they are edited in place before the query of the case is built: it ranges over what the lists hold NOW
             def mark(ps):
@@ -227,6 +236,8 @@ class C13:
                 d['domain_members_of_strict_subclass'] += sum(1 for i in p['d'] if case['heap'][i]['cls'] != p['T']
                                                               and is_sub(case['classes'], case['heap'][i]['cls'], p['T']))
         d['registry_cleared'] += 1 if case.get('clear_registry') else 0
+        d['one_From_object_shared_by_all_terms'] += 1 if case.get('shared_from') else 0
+        d['single_value_domains'] += sum(1 for t in case['terms'] for p in walk_terms(t) if p.get('single'))
         rows = self.rows(io.get('pred_off'))
         d['impl_exception' if isinstance(rows, str) else ('rows_0' if not rows else 'rows_some')] += 1
         return d
@@ -250,10 +261,22 @@ class C13:
                 q['args'].pop(j)
                 yield d
             for j in range(len(p['d'])):
-                if len(p['d']) > 1:
+                if len(p['d']) > 1 and not case.get('shared_from'):
                     d = copy.deepcopy(case)
                     get_at(d, path)['d'].pop(j)
                     yield d
+        if case.get('shared_from'):
+            # one From object: every term has the same members
+            d0 = case['terms'][0]['d']
+            for j in range(len(d0)):
+                if len(d0) > 1:
+                    d = copy.deepcopy(case)
+                    for path in term_paths(d):
+                        get_at(d, path)['d'].pop(j)
+                    yield d
+            d = copy.deepcopy(case)
+            d.pop('shared_from')
+            yield d
         if case['extra']:
             d = copy.deepcopy(case)
             d['extra'] = []
